@@ -150,7 +150,7 @@ def check_dechunk(S, rec, rng):
         rec.violation("C19/chunked-body-decoded-wrong", f"decoded {out!r}, body {body!r}; {case}", case, monitor="reference-dechunker")
         return
     # malformed variant
-    kind = rng.choice(["trunc", "neg", "nonhex", "noterm", "intspelling", "tolerated"])
+    kind = rng.choice(["trunc", "neg", "nonhex", "noterm", "intspelling", "tolerated", "midbad", "midbad"])
     valid_prefix = body
     if kind == "trunc":
         last_term = len(raw) - len(nl)  # first byte of the final terminator
@@ -169,6 +169,15 @@ def check_dechunk(S, rec, rng):
     elif kind == "noterm":
         mal = b"3" + nl + b"abcX" + nl + raw
         valid_prefix = b"abc"
+    elif kind == "midbad":
+        # the damage is behind well-formed chunks and is itself followed by well-formed framing
+        good = rng.choice([b"abc", b"a", b"ab\ncd"])
+        mal = (b"%x" % len(good)) + nl + good + nl
+        if rng.random() < 0.5:
+            mal += b"2" + nl + b"xy" + nl
+            good += b"xy"
+        mal += rng.choice([b"", b"zz", b"-1", b"g", b"0x2", b"1 1"]) + nl + raw
+        valid_prefix = good
     elif kind == "intspelling":
         mal = rng.choice([b"0x3", b"+3", b"0_3", b"1_0", b"0X3", b"-0", b"3_"]) + nl + b"abcdefghijklmnop"[: 16] + nl + b"0" + nl + nl
         valid_prefix = b""
